@@ -250,6 +250,16 @@ SLICES = [
         "drops": "the `let Some(next_player) = terms.next()` line and the side-key XOR after it",
     },
     {
+        "name": "verif_fen_side_key",
+        "file": "chess/mod.rs",
+        "within": r"^\s*pub fn new\(fen: &str\)",
+        "header": "impl Game { pub(crate) fn verif_fen_side_key(current_player: Player, hash_in: u64) -> u64",
+        "pre": "let mut hash = hash_in;",
+        "regions": [{"start": r"^\s*if current_player == Player::Black \{", "end": ("block",)}],
+        "post": "hash }",
+        "drops": "nothing of its own: the statement between the side field and the castling field",
+    },
+    {
         "name": "verif_fen_castling",
         "file": "chess/mod.rs",
         "within": r"^\s*pub fn new\(fen: &str\)",
